@@ -202,6 +202,41 @@ impl<'a> TagTrainer<'a> {
                 .build_model()
                 .map_err(|e| VaporettoError::invalid_model(e.to_string()))?;
 
+            #[cfg(feature = "verif-hooks")]
+            crate::verif::with_trace(|t| {
+                let n = i32::try_from(model.labels().len()).unwrap();
+                let raw = crate::verif::VerifRawLearner {
+                    labels: model.labels().to_vec(),
+                    bias: (0..n).map(|i| model.label_bias(i)).collect(),
+                    coef: feature_ids
+                        .iter()
+                        .map(|(f, &fid)| {
+                            let fid = i32::try_from(fid).unwrap();
+                            let f = match f {
+                                TagFeature::CharacterNgram(f) => {
+                                    crate::verif::VerifFeature::CharNgram {
+                                        ngram: f.ngram.to_string(),
+                                        rel_position: f.rel_position,
+                                    }
+                                }
+                                TagFeature::CharacterTypeNgram(f) => {
+                                    crate::verif::VerifFeature::TypeNgram {
+                                        ngram: f.ngram.to_vec(),
+                                        rel_position: f.rel_position,
+                                    }
+                                }
+                            };
+                            (
+                                f,
+                                (0..n).map(|i| model.feature_coefficient(fid, i)).collect(),
+                            )
+                        })
+                        .collect(),
+                    num_features: model.num_features(),
+                };
+                t.raw_tags.push((token.clone(), i, raw));
+            });
+
             // Calculates the quantize multiplier
             let mut weight_max = 1e-6f64;
             for i in 0..i32::try_from(tag_ids.len()).unwrap() {
